@@ -305,3 +305,37 @@ def impl_c16(case, scratch):
     if any(len(l) for l in ctx.to_return().values()):
         problems.append(["not-cleared"])
     return {"outcome": "ok", "problems": problems, "nmsgs": nmsgs, "out": (out or "")[:300]}
+
+
+# ---------------------------------------------------------------- C18 / generic expand
+_ctx_by_lang = {}
+
+
+def lang_ctx(scratch, lang):
+    if lang not in _ctx_by_lang:
+        _ctx_by_lang[lang] = new_ctx(scratch, lang_code=lang)
+    return _ctx_by_lang[lang]
+
+
+def impl_expand(case, scratch):
+    """case: {"text": ..., "lang": "en"} -> expanded text (no templates needed)"""
+    ctx = lang_ctx(scratch, case.get("lang", "en"))
+    ctx.start_page(case.get("title", "Tt"))
+    out = ctx.expand(case["text"])
+    return {"outcome": "ok", "out": out, "stack": len(ctx.expand_stack)}
+
+
+def impl_expand_many(case, scratch):
+    """case: {"texts": [...], "lang": ...} -> list of outcomes (one context, one start_page per text)"""
+    ctx = lang_ctx(scratch, case.get("lang", "en"))
+    outs = []
+    for t in case["texts"]:
+        ctx.start_page(case.get("title", "Tt"))
+        try:
+            outs.append(["ok", ctx.expand(t)])
+        except Exception as e:  # noqa
+            import traceback
+            tb = traceback.extract_tb(e.__traceback__)
+            outs.append(["raised", type(e).__name__, tb[-1].name if tb else ""])
+            ctx.expand_stack = []
+    return {"outcome": "ok", "outs": outs}
